@@ -304,12 +304,8 @@ theorem eager_enc_eq_lazy_enc (ok : FastOk B P n) (hf : free = 2 ^ P - n) (hm : 
     eagerEnc B (cdfList B P n free h) s = lazyEnc B P n free h s := by
   rw [eagerEnc_eq ok hf hm, lazyEnc_eq ok hf hm]
 
-theorem wsub64_pred {j : Nat} (h1 : 1 ≤ j) (h2 : j < 2 ^ 64) : wsub 64 j 1 = j - 1 := by
-  unfold wsub
-  have : (1 : Nat) % 2 ^ 64 = 1 := Nat.mod_eq_of_lt (by omega)
-  rw [this]
-  have : j + 2 ^ 64 - 1 = (j - 1) + 2 ^ 64 := by omega
-  rw [this, Nat.add_mod_right, Nat.mod_eq_of_lt (by omega)]
+theorem usizePred_eq {j : Nat} (h1 : 1 ≤ j) : usizePred j = j - 1 := by
+  unfold usizePred; rw [if_neg (by omega)]
 
 /-- what the decoder must return for `q`: the bin `s` that contains it -/
 def IsBin (P n free : Nat) (h : Nat → Nat) (q s : Nat) : Prop :=
@@ -334,7 +330,7 @@ theorem lazyDecLoop_spec (ok : FastOk B P n) (hB : B ≤ 64) (hf : free = 2 ^ P 
       rw [e, cumF_last]; exact hq
     · unfold lazyDecLoop
       simp only
-      rw [wsub_last ok hf hm (by omega), if_neg (by omega), wsub64_pred (by omega) (by omega)]
+      rw [wsub_last ok hf hm (by omega), if_neg (by omega), usizePred_eq (by omega)]
       rfl
   | succ fuel ih =>
     intro j hjn hle
@@ -347,15 +343,40 @@ theorem lazyDecLoop_spec (ok : FastOk B P n) (hB : B ≤ 64) (hf : free = 2 ^ P 
     by_cases hgt : cumF P n free h (j + 1) > q
     · rw [if_pos hgt]
       refine ⟨j, ⟨hjs, hle, hgt⟩, ?_⟩
-      rw [wsub_inner ok hf hm hj1, if_neg (by omega), wsub64_pred (by omega) (by omega)]
+      rw [wsub_inner ok hf hm hj1, if_neg (by omega), usizePred_eq (by omega)]
       rfl
     · rw [if_neg hgt]
       exact ih (j + 1) (by omega) (Nat.le_of_not_gt hgt)
+
+/-- the lazy decoder returns the bin of `q` for every admissible skip count `k0`;
+    TB-F2 (soundness of the float-only skip phase) is exactly `cumF (k0 - 1) ≤ q` -/
+theorem lazyDec_spec (ok : FastOk B P n) (hB : B ≤ 64) (hf : free = 2 ^ P - n)
+    (hm : Mono h n) {q k0 : Nat} (hq : q < 2 ^ P)
+    (hk1 : 1 ≤ k0) (hkn : k0 ≤ n) (tbf2 : cumF P n free h (k0 - 1) ≤ q) :
+    ∃ s, IsBin P n free h q s ∧
+      lazyDec B P n free h k0 q = .ok (s, cumF P n free h s, widthF P n free h s) := by
+  have h64 : (2 : Nat) ^ P ≤ 2 ^ 64 := two_pow_le (by have := ok.hPB; omega)
+  have hn := ok.hn
+  obtain ⟨j, rfl⟩ : ∃ j, k0 = j + 1 := ⟨k0 - 1, by omega⟩
+  have e : j + 1 - 1 = j := by omega
+  rw [e] at tbf2
+  unfold lazyDec
+  rw [usizePred_eq hk1, e, cadd_cum ok hf _ (by omega)]
+  exact lazyDecLoop_spec ok hB hf hm hq (n - (j + 1)) j (by omega) tbf2
 
 /-- bins are unique, so `lazyDec` is a function of `q` alone: the hint-like `k0` only saves work -/
 theorem IsBin.unique (ok : FastOk B P n) (hf : free = 2 ^ P - n) (hm : Mono h n) {q s t : Nat}
     (hs : IsBin P n free h q s) (ht : IsBin P n free h q t) : s = t :=
   bin_unique ok hf hm hs.1 ht.1 hs.2.1 hs.2.2 ht.2.1 ht.2.2
+
+/-- every quantile below `2^P` has a bin -/
+theorem IsBin.exists (ok : FastOk B P n) (hB : B ≤ 64) (hf : free = 2 ^ P - n) (hm : Mono h n)
+    (h0 : h 0 = 0) {q : Nat} (hq : q < 2 ^ P) : ∃ s, IsBin P n free h q s := by
+  have hn2 := ok.hn2
+  have := lazyDec_spec ok hB hf hm (k0 := 1) hq (by omega) (by omega)
+    (by rw [cumF_zero ok h0]; omega)
+  obtain ⟨s, hs, _⟩ := this
+  exact ⟨s, hs⟩
 
 end
 
